@@ -26,6 +26,12 @@ behaviour-preserving ways of writing the same thing do not reach the rules at al
 Locations are kept (copy_location), so reports still point into the real file.
 """
 import ast
+import copy
+
+
+def copy_stmt(s):
+    n = copy.copy(s)
+    return n
 
 FLIP = {ast.Eq: ast.Eq, ast.NotEq: ast.NotEq, ast.Lt: ast.Gt, ast.Gt: ast.Lt, ast.LtE: ast.GtE, ast.GtE: ast.LtE}
 TERMINATORS = (ast.Return, ast.Raise, ast.Continue, ast.Break)
@@ -96,6 +102,15 @@ class _Expr(ast.NodeTransformer):
 
     def visit_Compare(self, n):
         self.generic_visit(n)
+        # N16  x in (a, b) -> x == a or x == b   (literal tuple/list of at most four call-free elements)
+        if len(n.ops) == 1 and isinstance(n.ops[0], (ast.In, ast.NotIn)) and isinstance(n.comparators[0], (ast.Tuple, ast.List)) \
+                and 1 <= len(n.comparators[0].elts) <= 4 and _pure(n.left) and all(_pure(e) for e in n.comparators[0].elts):
+            pos = isinstance(n.ops[0], ast.In)
+            vals = [self.visit_Compare(ast.copy_location(ast.Compare(left=n.left, ops=[ast.Eq() if pos else ast.NotEq()], comparators=[e]), n))
+                    for e in n.comparators[0].elts]
+            if len(vals) == 1:
+                return vals[0]
+            return ast.copy_location(ast.BoolOp(op=ast.Or() if pos else ast.And(), values=vals), n)
         if len(n.ops) != 1 or type(n.ops[0]) not in FLIP:
             return n
         a, b = n.left, n.comparators[0]
@@ -132,8 +147,34 @@ class _Expr(ast.NodeTransformer):
         n.values = vals
         return n
 
+    _TYPES = {int: 'int', str: 'str', bytes: 'bytes', float: 'float', bool: 'bool', list: 'list', dict: 'dict', tuple: 'tuple'}
+
+    def _expand_call(self, n):
+        """N14 isinstance(x, (A, B)) -> isinstance(x, A) or isinstance(x, B);  N15 type(<literal>) -> the type's name"""
+        if isinstance(n.func, ast.Name) and n.func.id == 'isinstance' and len(n.args) == 2 and not n.keywords \
+                and isinstance(n.args[1], ast.Tuple) and n.args[1].elts and _pure(n.args[0]) and all(_pure(e) for e in n.args[1].elts):
+            vals = [ast.copy_location(ast.Call(func=ast.Name(id='isinstance', ctx=ast.Load()), args=[n.args[0], e], keywords=[]), n) for e in n.args[1].elts]
+            return vals[0] if len(vals) == 1 else ast.copy_location(ast.BoolOp(op=ast.Or(), values=vals), n)
+        if isinstance(n.func, ast.Name) and n.func.id == 'type' and len(n.args) == 1 and not n.keywords:
+            a = n.args[0]
+            t = None
+            if isinstance(a, ast.Constant) and type(a.value) in self._TYPES:
+                t = self._TYPES[type(a.value)]
+            elif isinstance(a, ast.List) and not a.elts:
+                t = 'list'
+            elif isinstance(a, ast.Dict) and not a.keys:
+                t = 'dict'
+            elif isinstance(a, ast.Tuple) and not a.elts:
+                t = 'tuple'
+            if t:
+                return ast.copy_location(ast.Name(id=t, ctx=ast.Load()), n)
+        return None
+
     def visit_Call(self, n):
         self.generic_visit(n)
+        e = self._expand_call(n)
+        if e is not None:
+            return e
         if not n.keywords or any(isinstance(a, ast.Starred) for a in n.args) or any(k.arg is None for k in n.keywords):
             return n
         if isinstance(n.func, ast.Attribute):
@@ -172,7 +213,81 @@ class Canon(object):
         ast.fix_missing_locations(tree)
         return tree
 
+    def expand(self, body):
+        """statement-level rewrites that create structure (run before the children are visited)"""
+        out = []
+        for s in body:
+            # N17 conditional expression as the whole value of a statement -> if / else
+            if isinstance(s, (ast.Assign, ast.AugAssign, ast.Return)) and isinstance(s.value, ast.IfExp):
+                a, b = copy_stmt(s), copy_stmt(s)
+                a.value, b.value = s.value.body, s.value.orelse
+                out.extend(self.expand([ast.copy_location(ast.If(test=s.value.test, body=[a], orelse=[b]), s)]))
+                self.hit('N17')
+                continue
+            if isinstance(s, ast.Expr) and isinstance(s.value, ast.Call) and _pure(s.value.func) and not s.value.keywords:
+                k = s.value
+                idx = [i for i, a_ in enumerate(k.args) if isinstance(a_, ast.IfExp)]
+                if len(idx) == 1 and all(_pure(a_) for a_ in k.args[:idx[0]]):
+                    ie = k.args[idx[0]]
+                    ca = ast.copy_location(ast.Expr(value=ast.Call(func=k.func, args=k.args[:idx[0]] + [ie.body] + k.args[idx[0] + 1:], keywords=[])), s)
+                    cb = ast.copy_location(ast.Expr(value=ast.Call(func=k.func, args=k.args[:idx[0]] + [ie.orelse] + k.args[idx[0] + 1:], keywords=[])), s)
+                    out.extend(self.expand([ast.copy_location(ast.If(test=ie.test, body=[ca], orelse=[cb]), s)]))
+                    self.hit('N17')
+                    continue
+            # N13 x = x
+            if isinstance(s, ast.Assign) and len(s.targets) == 1 and isinstance(s.targets[0], ast.Name) and isinstance(s.value, ast.Name) \
+                    and s.targets[0].id == s.value.id:
+                out.append(ast.copy_location(ast.Pass(), s))
+                continue
+            # N18 x op= e -> x = x op e   (names only; not for list/dict/set displays, where += extends the object in place)
+            if isinstance(s, ast.AugAssign) and isinstance(s.target, ast.Name) and \
+                    not isinstance(s.value, (ast.List, ast.Dict, ast.Set, ast.ListComp, ast.DictComp, ast.SetComp)):
+                out.append(ast.copy_location(ast.Assign(targets=[ast.Name(id=s.target.id, ctx=ast.Store())],
+                                                        value=ast.BinOp(left=ast.Name(id=s.target.id, ctx=ast.Load()), op=s.op, right=s.value)), s))
+                self.hit('N18')
+                continue
+            # N19 a, b = X, Y  with independent sides -> a = X ; b = Y
+            if isinstance(s, ast.Assign) and len(s.targets) == 1 and isinstance(s.targets[0], ast.Tuple) and isinstance(s.value, ast.Tuple) \
+                    and len(s.targets[0].elts) == len(s.value.elts) and all(isinstance(t, (ast.Name, ast.Attribute)) for t in s.targets[0].elts):
+                tnames = [ast.unparse(t) for t in s.targets[0].elts]
+                indep = all(_pure(v) or i == 0 for i, v in enumerate(s.value.elts))
+                for i, v in enumerate(s.value.elts):
+                    reads = set(ast.unparse(x) for x in ast.walk(v) if isinstance(x, (ast.Name, ast.Attribute)))
+                    if any(t in reads or any(r.startswith(t + '.') for r in reads) for t in tnames[:i]):
+                        indep = False
+                if indep:
+                    for t, v in zip(s.targets[0].elts, s.value.elts):
+                        t2 = copy.deepcopy(t)
+                        out.append(ast.copy_location(ast.Assign(targets=[t2], value=v), s))
+                    self.hit('N19')
+                    continue
+            # N20 except (A, B): X  ->  except A: X  except B: X
+            if isinstance(s, ast.Try):
+                hs = []
+                for h in s.handlers:
+                    if isinstance(h.type, ast.Tuple) and h.type.elts:
+                        for e in h.type.elts:
+                            hs.append(ast.copy_location(ast.ExceptHandler(type=e, name=h.name, body=copy.deepcopy(h.body)), h))
+                        self.hit('N20')
+                    else:
+                        hs.append(h)
+                s.handlers = hs
+            # N21 while C: B  ->  while True: if not C: break ; B      (one shape for loop conditions and in-loop exits)
+            if isinstance(s, ast.While) and not s.orelse and not (isinstance(s.test, ast.Constant) and s.test.value in (True, 1)):
+                brk = ast.copy_location(ast.If(test=negate(s.test), body=[ast.copy_location(ast.Break(), s)], orelse=[]), s)
+                s = ast.copy_location(ast.While(test=ast.copy_location(ast.Constant(value=True), s), body=[brk] + s.body, orelse=[]), s)
+                self.hit('N21')
+            # N12 if A or B: <single jump>  ->  if A: <jump> ; if B: <jump>
+            if isinstance(s, ast.If) and not s.orelse and isinstance(s.test, ast.BoolOp) and isinstance(s.test.op, ast.Or) and _single_jump(s):
+                for v in s.test.values:
+                    out.extend(self.expand([ast.copy_location(ast.If(test=v, body=[copy.deepcopy(s.body[0])], orelse=[]), s)]))
+                self.hit('N12')
+                continue
+            out.append(s)
+        return out
+
     def block(self, body):
+        body = self.expand(body)
         for s in body:
             isfn = isinstance(s, (ast.FunctionDef, ast.AsyncFunctionDef))
             if isfn:
@@ -260,6 +375,13 @@ class Canon(object):
             if sr < sb or (sr == sb and negative(s.test)):
                 s, rest = ast.copy_location(ast.If(test=negate(s.test), body=rest, orelse=[]), s), list(s.body)
                 self.hit('N4')
+        if not s.orelse and _single_jump(s) and isinstance(s.test, ast.BoolOp) and isinstance(s.test.op, ast.Or):
+            # N12 again: the `if A or B: <jump>` may only have lost its else just now
+            self.hit('N12')
+            parts = []
+            for v in s.test.values:
+                parts.extend(self.norm_if(ast.copy_location(ast.If(test=v, body=[copy.deepcopy(s.body[0])], orelse=[]), s), []))
+            return parts + rest
         if isinstance(s.test, ast.BoolOp) and isinstance(s.test.op, ast.And):
             # N3: one test node per conjunct, so that path rules see each decision separately
             vals = []
@@ -286,6 +408,11 @@ def _chain(e):
     while isinstance(e, ast.Attribute):
         e = e.value
     return isinstance(e, ast.Name)
+
+
+def _single_jump(s):
+    return len(s.body) == 1 and (isinstance(s.body[0], (ast.Break, ast.Continue)) or
+                                 (isinstance(s.body[0], ast.Return) and (s.body[0].value is None or isinstance(s.body[0].value, (ast.Constant, ast.Name)))))
 
 
 def negative(t):
